@@ -29,11 +29,123 @@ pub fn gen(g: &mut Gen) {
         g.op(line.to_string());
     }
     gen_large(g, "c05.fp", "@ trace fp");
+    gen_degenerate(g, "c05.fp", "@ trace", " fp", Kind::Fp);
+    gen_degenerate(g, "c05.rat", "@ trace", " rat", Kind::Rat);
+    // `nv` only exists for pow (number ^ trace); gen_f64 skips it for add/mul, sub/div are `cv`
+    gen_f64(g, "c05", "trace", &["vc", "cv", "xx", "vn", "nv", "cc"], &|op, pairing, x, y| {
+        if pairing == "nv" && op != "pow" { (0.0, None, None) } else { f64_expect_trace(op, pairing, x, y) }
+    });
     for _ in 0..n_fp {
         gen_program(g, Kind::Fp, "c05.fp", "@ trace fp", 30);
     }
     for _ in 0..n_rat {
         gen_program(g, Kind::Rat, "c05.rat", "@ trace rat", 10);
+    }
+}
+
+// ---------------------------------------------------------------------------------------------
+// f64 at degenerate values (see c04.rs): Trace<f64> vs the formulae in the comments of
+// trace_operations.rs (`u'v + uv'`, `(u'v - uv') / v^2`, `u' cos(u)`, `-u' sin(u)`, …)
+// ---------------------------------------------------------------------------------------------
+
+/// (value, derivative) the documentation promises for `(u,u') op (v,v')`
+fn dual_rule(op: &str, u: f64, du: f64, v: f64, dv: f64) -> (f64, f64) {
+    match op {
+        "add" => (u + v, du + dv),
+        "sub" => (u - v, du - dv),
+        "mul" => (u * v, (du * v) + (u * dv)),
+        "div" => (u / v, ((du * v) - (u * dv)) / (v * v)),
+        "pow" => (u.powf(v), (du * v * u.powf(v - 1.0)) + (dv * u.powf(v) * u.ln())),
+        "neg" => (0.0 - u, 0.0 - du),
+        "sin" => (u.sin(), du * u.cos()),
+        "cos" => (u.cos(), -du * u.sin()),
+        "exp" => (u.exp(), du * u.exp()),
+        "ln" => (u.ln(), du / u),
+        "sqrt" => (u.sqrt(), du / (2.0 * u.sqrt())),
+        other => panic!("harness: f64 op {}", other),
+    }
+}
+
+/// trace ∘ plain number (no formula documented for `+ − × ÷`: the obvious one, for `÷` the
+/// quotient rule with a constant divisor as the code writes it, `(u'·c)/(c·c)`)
+fn dual_rule_number(op: &str, u: f64, du: f64, c: f64) -> (f64, f64) {
+    match op {
+        "add" => (u + c, du),
+        "sub" => (u - c, du),
+        "mul" => (u * c, du * c),
+        "div" => (u / c, (du * c) / (c * c)),
+        _ => (u.powf(c), du * c * u.powf(c - 1.0)),
+    }
+}
+
+/// documented answer: value and the derivative of the run seeded at x (dx) / at y (dy)
+fn f64_expect_trace(op: &str, pairing: &str, x: f64, y: f64) -> (f64, Option<f64>, Option<f64>) {
+    if is_unary(op) {
+        let (v, d) = dual_rule(op, x, if pairing == "v" { 1.0 } else { 0.0 }, 0.0, 0.0);
+        return (v, if pairing == "v" { Some(d) } else { None }, None);
+    }
+    match pairing {
+        "xx" => { let (v, d) = dual_rule(op, x, 1.0, x, 1.0); (v, Some(d), None) }
+        "vc" => { let (v, d) = dual_rule(op, x, 1.0, y, 0.0); (v, Some(d), None) }
+        "cv" => { let (v, d) = dual_rule(op, x, 0.0, y, 1.0); (v, None, Some(d)) }
+        "vn" => { let (v, d) = dual_rule_number(op, x, 1.0, y); (v, Some(d), None) }
+        // number ^ trace: (v' * u^v * ln(u))
+        "nv" => (x.powf(y), None, Some(1.0 * x.powf(y) * x.ln())),
+        _ => { let (v, _) = dual_rule(op, x, 0.0, y, 0.0); (v, None, None) }
+    }
+}
+
+fn f64_run_trace(op: &str, pairing: &str, x: f64, y: f64, via: &str) -> Result<(f64, Option<f64>, Option<f64>), PanicKind> {
+    catch(|| {
+        let mk = |is_var: bool, v: f64| if is_var { Trace::variable(v) } else { Trace::constant(v) };
+        if is_unary(op) {
+            let a = mk(pairing == "v", x);
+            let r = match op {
+                "neg" => op2!(via, &a, Neg::neg),
+                "sin" => op2!(via, &a, Sin::sin),
+                "cos" => op2!(via, &a, Cos::cos),
+                "exp" => op2!(via, &a, Exp::exp),
+                "ln" => op2!(via, &a, Ln::ln),
+                _ => op2!(via, &a, Sqrt::sqrt),
+            };
+            return (r.number, if pairing == "v" { Some(r.derivative) } else { None }, None);
+        }
+        let (xv, yv) = match pairing {
+            "vc" | "vn" | "xx" => (true, false),
+            "cv" | "nv" => (false, true),
+            _ => (false, false),
+        };
+        let a = mk(xv, x);
+        let b = mk(yv, y);
+        let r = match (pairing, op) {
+            ("xx", "add") => op4!(via, &a, &a, Add::add),
+            ("xx", "sub") => op4!(via, &a, &a, Sub::sub),
+            ("xx", "mul") => op4!(via, &a, &a, Mul::mul),
+            ("xx", "div") => op4!(via, &a, &a, Div::div),
+            ("xx", _) => op4!(via, &a, &a, Pow::pow),
+            ("vn", "add") => op4!(via, &a, &y, Add::add),
+            ("vn", "sub") => op4!(via, &a, &y, Sub::sub),
+            ("vn", "mul") => op4!(via, &a, &y, Mul::mul),
+            ("vn", "div") => op4!(via, &a, &y, Div::div),
+            ("vn", _) => op4!(via, &a, &y, Pow::pow),
+            ("nv", _) => op4!(via, &x, &b, Pow::pow),
+            (_, "add") => op4!(via, &a, &b, Add::add),
+            (_, "sub") => op4!(via, &a, &b, Sub::sub),
+            (_, "mul") => op4!(via, &a, &b, Mul::mul),
+            (_, "div") => op4!(via, &a, &b, Div::div),
+            (_, _) => op4!(via, &a, &b, Pow::pow),
+        };
+        (r.number, if xv { Some(r.derivative) } else { None }, if yv { Some(r.derivative) } else { None })
+    })
+}
+
+fn f64_line_trace(toks: &[&str]) -> String {
+    let (op, pairing) = (toks[3], toks[4]);
+    let (x, y) = (parse_bits(toks[5]), parse_bits(toks[6]));
+    let via = opt_arg("via", toks).unwrap_or("ref_ref");
+    match f64_run_trace(op, pairing, x, y, via) {
+        Ok(got) => f64_compare(got, f64_expect_trace(op, pairing, x, y)),
+        Err(k) => panic_str(k),
     }
 }
 
@@ -331,6 +443,13 @@ impl Runner {
     pub fn step(&mut self, toks: &[&str]) -> String {
         if toks.is_empty() {
             return "bad-op".into();
+        }
+        if toks[0] == "@" && toks.get(1) == Some(&"f64") {
+            self.case = Case::None;
+            if toks[4] == "nv" && toks[3] != "pow" {
+                return "f64=ok".into(); // no number - trace / number / trace form exists
+            }
+            return f64_line_trace(toks);
         }
         if toks[0] == "@" {
             self.case = Case::None;
